@@ -493,8 +493,11 @@ class _Inliner:
             any_change = any_change or changed
             if not changed:
                 break
-        if any_change:
-            self._reduce_local_lambdas(fn)
+        # local lambdas called with simple arguments are substituted at their call sites in every function (a helper that
+        # exists only to avoid writing an expression twice is not a shape any rule should depend on)
+        before = ast.dump(fn)
+        self._reduce_local_lambdas(fn)
+        if any_change or ast.dump(fn) != before:
             self._drop_dead_lambdas(fn)
 
     @staticmethod
@@ -519,7 +522,13 @@ class _Inliner:
             calls = [n for t in fn.body if t is not s for n in ast.walk(t) if isinstance(n, ast.Call) and isinstance(n.func, ast.Name) and n.func.id == name]
             if not loads or len(loads) != len(calls):
                 continue
-            if not all(len(c.args) == nparams and not c.keywords and all(_simple(x) for x in c.args) for c in calls):
+            pnames = [p.arg for p in a.posonlyargs + a.args]
+            once = all(sum(1 for m in ast.walk(lam.body) if isinstance(m, ast.Name) and m.id == p) <= 1 for p in pnames)
+
+            def _arg_ok(x):
+                # an element read x[i] is as good as a name when the parameter is used once (no duplicated evaluation)
+                return _simple(x) or (once and isinstance(x, ast.Subscript) and _simple(x.value) and _simple(x.slice))
+            if not all(len(c.args) == nparams and not c.keywords and all(_arg_ok(x) for x in c.args) for c in calls):
                 continue
             if any(isinstance(n, ast.Name) and n.id == name for n in ast.walk(lam.body)):
                 continue
